@@ -22,6 +22,11 @@ HARNESS = os.path.join(VERIF, 'harness')
 BUILD = os.path.join(VERIF, 'build')
 EVID = os.path.join(VERIF, 'evidence')
 REPLAYS = os.path.join(VERIF, 'replays')
+if REPO != '/repo':
+    # mutation / seeded-change runs never touch the committed evidence or replays
+    _h = hashlib.sha1(REPO.encode()).hexdigest()[:8]
+    EVID = os.path.join(tempfile.gettempdir(), 'verif-mut-' + _h, 'evidence')
+    REPLAYS = os.path.join(tempfile.gettempdir(), 'verif-mut-' + _h, 'replays')
 
 GOENV = dict(GOFLAGS='-mod=mod', GOPROXY='off', GOSUMDB='off', GOTOOLCHAIN='local')
 
@@ -69,16 +74,24 @@ def build(drv, tags='verif', race=False):
     if REPO != '/repo':
         suffix = '-' + hashlib.sha1(REPO.encode()).hexdigest()[:8]
     out = os.path.join(BUILD, 'vh-%s%s%s' % (drv, '-race' if race else '', suffix))
-    lock = open(os.path.join(BUILD, '.lock'), 'w')
+    lock = open(os.path.join(BUILD, '.lock' + suffix), 'w')
     fcntl.flock(lock, fcntl.LOCK_EX)
+    harness = HARNESS
     try:
-        gen_gomod()
+        if REPO != '/repo':
+            # mutation runs (VERIF_REPO=<worktree>): build from a private copy of the harness so that
+            # the generated go.mod of the registered checks is never touched
+            harness = os.path.join(tempfile.gettempdir(), 'verif-harness' + suffix)
+            sh(['rsync', '-a', '--delete', '--exclude', 'go.mod', '--exclude', 'go.sum', HARNESS + '/', harness + '/'], check=True)
+        sys.path.insert(0, os.path.join(VERIF, 'lib'))
+        import gomod
+        gomod.gen(REPO, harness)
         cmd = ['go', 'build', '-tags', tags]
         if race:
             cmd.append('-race')
         cmd += ['-o', out, './drv/' + drv]
         t0 = time.time()
-        rc, o = sh(cmd, cwd=HARNESS, timeout=1500)
+        rc, o = sh(cmd, cwd=harness, timeout=1500)
         if rc != 0:
             raise Broken('harness build failed for %s:\n%s' % (drv, o[-6000:]))
         log('[build] vh-%s in %.1fs' % (drv, time.time() - t0))
@@ -225,7 +238,7 @@ class Ctx:
             i = line.find('@@B')
             if i < 0:
                 continue
-            j = line.find('"', i)
+            j = line.find('"', line.find('"', i) + 1)
             k = line.rfind('"')
             if j < 0 or k <= j:
                 continue
@@ -397,6 +410,18 @@ class Ctx:
         return finish(self)
 
 
+def compact_sample(x):
+    """Drop bulky projections from a behaviour sample (kept: op, arguments, predicted reply)."""
+    try:
+        if isinstance(x, dict) and isinstance(x.get('steps'), list):
+            y = dict(x)
+            y['steps'] = [{k: v for k, v in s.items() if k != 'chk' or len(json.dumps(v)) < 200} for s in x['steps'][:40]]
+            return y
+    except Exception:
+        pass
+    return x
+
+
 def corrupt(v):
     if isinstance(v, bool):
         return not v
@@ -482,6 +507,7 @@ def finish(ctx):
         else:
             violations.append(m)
     wall = time.time() - ctx.t0
+    ctx.samples = [compact_sample(x) for x in ctx.samples]
     cov = dict(states=ctx.states, transitions=ctx.transitions,
                traces_validated_against_impl=ctx.traces,
                evaluations=ctx.evaluations, distinct_nontrivial=ctx.nontrivial,
